@@ -1,6 +1,7 @@
 // Harness sorting decides C13: output ordering is a deterministic function of
 // the aggregated data. For a pool of keys (numbers in several spellings, text,
-// weekday and month names, dates in two layouts, NaN) it enumerates every
+// weekday and month names, dates in two layouts, NaN; dateviews.go: timestamps
+// of one layout differing in fraction, second, minute, offset or year) it enumerates every
 // subset up to a size, every permutation handed to the sorter, every sort
 // name x modifier accepted by helpers.BuildSorter plus the sorters the
 // commands take directly from pkg/aggregation/sorting, sorter instances fresh
@@ -224,6 +225,9 @@ func worker(w *runner.W) {
 					if vw.calendarOnly && group[0].mode != "contextual" && group[0].mode != "date" {
 						continue
 					}
+					if vw.dateOnly && group[0].mode != "date" {
+						continue
+					}
 					for _, vals := range valueAssignments(group[0].mode, n, vw) {
 						data := make([]nv, n)
 						for i, k := range idx {
@@ -346,6 +350,9 @@ func worker(w *runner.W) {
 				continue
 			}
 			if vw.calendarOnly && sp.mode != "contextual" && sp.mode != "date" {
+				continue
+			}
+			if vw.dateOnly && sp.mode != "date" {
 				continue
 			}
 			for _, a := range vw.keys {
@@ -553,7 +560,7 @@ func sizeAndHistoryRule(quick bool) string {
 		}
 		cs = append(cs, fmt.Sprintf("%s (%s; under %v)", c.name, what, c.modes))
 	}
-	return fmt.Sprintf("Size families: generated key sets of one class, element i carrying i (its name, magnitude, calendar position, date or total), for n = 0..70 and 2^k-1, 2^k, 2^k+1 (k >= 7) up to the class's bound, under every mode of the class with '', :asc, :desc through helpers.BuildSorter and every package sorter of the mode, handed over as identity, reverse, rotations, adjacent transpositions and stride interleavings (up to 70 keys: all rotations and all adjacent transpositions, strides 2,3,5,7; above: 3 rotations, 3 transpositions, 2 strides), fresh instance per sort: one sequence, the mode's semantic clause on it, every adjacent pair of it confirmed by a fresh instance asked about that pair alone, direction relations inside the name group, and for sets of 11, 12, 13, 20, 50, 70, 127 and 129 keys the same data through MatchCounter.ItemsSortedBy, SubKeyCounter.ItemsSorted, TableAggregator.OrderedRows/OrderedColumns and AccumulatingGroup.Groups in two arrival orders; classes: %s. Long-lived instance: for each of the %d specs ONE instance sorts a list of data sets of %v keys in two arrival orders each, forwards and then backwards, every result compared with a fresh instance (text/numeric/value: a list mixing integers, number spellings, text, numbers-and-text, weekday names, month names, ISO dates, US dates and windows of the hand-written pool, value sorts also the same names under four patterns of totals; contextual: an all-weekday and an all-month list; date: an all-ISO and an all-US list). Two instances: for every ordered pair of sort names out of %q, the first built by helpers.BuildSorter and the second by BuildSorter, BuildSorterOrFail, the real --sort flag (helpers.DefaultSortFlag parsed by urfave/cli) or the default of helpers.DefaultSortFlagWithDefault, the two sort their own histories alternately (two instances of one contextual/date name: weekday list against month list, ISO list against US list) and every result is compared with a fresh instance.", strings.Join(cs, "; "), len(specs), historySizes, twoInstanceNames)
+	return fmt.Sprintf("Size families: generated key sets of one class, element i carrying i (its name, magnitude, calendar position, date or total), for n = 0..70 and 2^k-1, 2^k, 2^k+1 (k >= 7) up to the class's bound, under every mode of the class with '', :asc, :desc through helpers.BuildSorter and every package sorter of the mode, handed over as identity, reverse, rotations, adjacent transpositions and stride interleavings (up to 70 keys: all rotations and all adjacent transpositions, strides 2,3,5,7; above: 3 rotations, 3 transpositions, 2 strides), fresh instance per sort: one sequence, the mode's semantic clause on it, every adjacent pair of it confirmed by a fresh instance asked about that pair alone, direction relations inside the name group, and for sets of 11, 12, 13, 20, 50, 70, 127 and 129 keys the same data through MatchCounter.ItemsSortedBy, SubKeyCounter.ItemsSorted, TableAggregator.OrderedRows/OrderedColumns and AccumulatingGroup.Groups in two arrival orders; classes: %s. Long-lived instance: for each of the %d specs ONE instance sorts a list of data sets of %v keys in two arrival orders each, forwards and then backwards, every result compared with a fresh instance (text/numeric/value: a list mixing integers, number spellings, text, numbers-and-text, weekday names, month names, ISO dates, US dates and windows of the hand-written pool, value sorts also the same names under four patterns of totals; contextual: an all-weekday and an all-month list; date: an all-ISO-date, an all-US-date, an all-millisecond-timestamp and an all-offset-timestamp list). Two instances: for every ordered pair of sort names out of %q, the first built by helpers.BuildSorter and the second by BuildSorter, BuildSorterOrFail, the real --sort flag (helpers.DefaultSortFlag parsed by urfave/cli) or the default of helpers.DefaultSortFlagWithDefault, the two sort their own histories alternately (two instances of one contextual/date name: weekday list against month list, ISO list against US list) and every result is compared with a fresh instance.", strings.Join(cs, "; "), len(specs), historySizes, twoInstanceNames)
 }
 
 // aggregatorSizes: the set sizes at which the size family also goes through the aggregators' sorted accessors.
@@ -673,6 +680,9 @@ func main() {
 				if vw.calendarOnly {
 					only = ", contextual and date sorts only (all their spellings, modifiers and package constructors)"
 				}
+				if vw.dateOnly {
+					only = ", date sorts only (all their spellings, modifiers and ByDateWithContextual)"
+				}
 				if vw.fullSet && len(vw.keys) > vw.maxSet(quick) {
 					only += fmt.Sprintf(", plus the complete set of %d keys", len(vw.keys))
 				}
@@ -692,9 +702,10 @@ func main() {
 				"sort.Sort is deterministic for a given input order and comparator (Go's pdqsort uses no randomness for slices this small)",
 				"hash-map iteration order inside the aggregators is chosen by the Go runtime; the aggregator accessors are therefore only compared where every permutation sorts to one sequence, so the verdict cannot depend on it",
 				"which weekday starts the week is not fixed by the statement: Sunday-first and Monday-first are both accepted; no order is demanded of `text`, of mixtures, or of what contextual/date do with keys outside their domain beyond determinism and the order axioms",
-				"keys outside the pool (other date layouts, time zones, localized names) are not covered",
+				"keys outside the pool (other date layouts, zone abbreviations, localized names) are not covered",
+				"date views: homogeneous sets of timestamps of one layout (ISO with .mmm/.uuuuuu/.nnnnnnnnn, month/day/year with .mmm, RFC 3339 with .mmm and offset, ISO seconds, ISO minutes, ISO / RFC 3339 / nginx with numeric offset) whose keys differ only in the fractional second, the second, the minute, the offset (one wall clock in six zones; wall clocks ordered differently from their instants; four spellings of ONE instant) or the year (1600, 1901, 1969/1970, 2038, 2262, 9999); the reference computes each key's instant from its calendar fields (days-from-civil, checked against package time at start-up) and `date` must order by instant; distinct texts of one instant may come in either order, but in ONE order (input class date-same-instant); in a signature the differing aspect follows the input class (all-date-same-layout/sub-second)",
 				"size families: one generated key set per (class, n) and a bounded family of permutations (not all n!); only homogeneous classes with a fresh instance per sort, so the recorded contextual/date findings (mixtures, re-use after foreign keys) are not involved; weekday/month sets beyond 7/12 keys contain several spellings of one day/month, whose mutual order is only required to be deterministic",
-				"history families: text, numeric and value sorters must be stateless across data sets of any class; contextual and date instances are only given homogeneous histories (all weekday names, all month names, all ISO dates, all US dates), their behaviour after a key outside the first inferred set/layout being the recorded known finding; the expected result of every sort is what a fresh instance built by the same call gives",
+				"history families: text, numeric and value sorters must be stateless across data sets of any class; contextual and date instances are only given homogeneous histories (all weekday names, all month names, all ISO dates, all US dates, all millisecond timestamps, all offset timestamps), their behaviour after a key outside the first inferred set/layout being the recorded known finding; the expected result of every sort is what a fresh instance built by the same call gives",
 				"the calendar views hold every weekday and every month as full name and as 3-letter abbreviation, each in lower case, Capitalised and UPPER case, one view per spelling form plus two views per set in which neighbouring names have different forms; a set of such names is a homogeneous set of weekday (month) names and `contextual` must order it by calendar position whatever the letter case; in a signature the spelling form follows the input class (all-weekday/full-name-capitalised). The longer abbreviations the sorter also knows (tues, thur, thurs, sept) are not demanded",
 			}
 		},
